@@ -17,8 +17,11 @@
 (*   - $GENERATE yields one record per step of its range, every $ and         *)
 (*     ${offset,width,base} replaced by the iterator value.                   *)
 (* Where the statement is silent the machine is left unconstrained (AMBIG):   *)
-(* either both outcomes are successors, or the state becomes `undef' (nothing *)
-(* is asserted about the rest of the file).                                   *)
+(* either the reading is a parameter of the run (`pol': whether owner / TTL   *)
+(* state survives the end of an included file or of a $GENERATE -- every      *)
+(* combination is admitted), or both outcomes are successors (include depth), *)
+(* or the state becomes `undef' (nothing is asserted about the rest of the    *)
+(* file).                                                                     *)
 EXTENDS Names, Present
 
 CONSTANTS SureDepth,   \* include nesting that has to work (assumption: the property names "include trees up to the depth limit")
@@ -264,14 +267,25 @@ GenRangeOK(g) == g.lo >= 0 /\ g.hi >= g.lo /\ g.step >= 1
 (* one abstract line may lead to (more than one only where marked AMBIG).      *)
 (*   cfg  = [defTTL (-1: none), origin, incAllowed, files: <<[name, lines]>>]  *)
 (*   s    = [origin, lastOwner, dirTTL ($TTL value), lastTTL (most recently    *)
-(*           stated), out, err, undef, opens, depth]                           *)
+(*           stated), out, err, undef, opens, depth, pol]                      *)
 (* Each record remembers the top-level line it came from (ln) and where its    *)
 (* TTL came from (src): "stated" | "$TTL" | "last" | "default".                *)
 
-Start(cfg) == [origin |-> cfg.origin, lastOwner |-> NoName, dirTTL |-> NoTTL, lastTTL |-> NoTTL,
-               out |-> <<>>, err |-> FALSE, undef |-> FALSE, opens |-> <<>>, depth |-> 0]
+\* pol: the reading of the AMBIG carry-out questions, fixed for a run:
+\*   io / it : owner / TTL state survives the end of an included file
+\*   go / gt : owner / TTL state survives a $GENERATE
+Policies == [io : BOOLEAN, it : BOOLEAN, go : BOOLEAN, gt : BOOLEAN]
+StartP(cfg, pol) == [origin |-> cfg.origin, lastOwner |-> NoName, dirTTL |-> NoTTL, lastTTL |-> NoTTL,
+                     out |-> <<>>, err |-> FALSE, errln |-> 0, undef |-> FALSE, opens |-> <<>>, depth |-> 0, pol |-> pol]
+Starts(cfg) == { StartP(cfg, pol) : pol \in Policies }
+\* the policies that can make a difference for a given file (the others give the same outcomes; MC_Zone checks that)
+HasKind(lines, k) == \E i \in 1..Len(lines) : lines[i].k = k
+StartsFor(cfg, lines) ==
+  LET inc == HasKind(lines, "include")
+      gen == HasKind(lines, "generate") \/ (inc /\ \E f \in 1..Len(cfg.files) : HasKind(cfg.files[f].lines, "generate"))
+  IN { StartP(cfg, p) : p \in { q \in Policies : (inc \/ (~q.io /\ ~q.it)) /\ (gen \/ (~q.go /\ ~q.gt)) } }
 
-Err(s)   == [s EXCEPT !.err = TRUE]
+ErrAt(s, ln) == [s EXCEPT !.err = TRUE, !.errln = ln]        \* errln: the top-level line the error belongs to
 Undef(s) == [s EXCEPT !.undef = TRUE]
 
 EffTTL(s, cfg, ttl) ==
@@ -300,10 +314,11 @@ FileIndex(cfg, name) == LET hit == { i \in 1..Len(cfg.files) : cfg.files[i].name
 RECURSIVE Step(_, _, _, _), RunLines(_, _, _, _, _)
 
 \* state carried OUT of an included file or a $GENERATE back into the includer: owner and TTL state
-\* either survive or do not  \* AMBIG
-CarryOut(s, sub) ==
-  { [sub EXCEPT !.origin = s.origin, !.depth = s.depth, !.lastOwner = lo, !.dirTTL = tt.dirTTL, !.lastTTL = tt.lastTTL] :
-      lo \in {s.lastOwner, sub.lastOwner}, tt \in {s, sub} }
+\* either survive or do not, as the run's policy says  \* AMBIG
+CarryOut(s, sub, keepOwner, keepTTL) ==
+  LET tt == IF keepTTL THEN sub ELSE s IN
+  [sub EXCEPT !.origin = s.origin, !.depth = s.depth, !.lastOwner = IF keepOwner THEN sub.lastOwner ELSE s.lastOwner,
+              !.dirTTL = tt.dirTTL, !.lastTTL = tt.lastTTL]
 
 Step(s, cfg, line, ln) ==
   IF s.err \/ s.undef THEN {s}                                  \* the error is sticky: no further records
@@ -311,33 +326,32 @@ Step(s, cfg, line, ln) ==
     [] line.k = "rr" ->
          LET r == RecordOf(s, cfg, ln, line) IN
          IF r.st = "amb" THEN {Undef(s)}
-         ELSE IF r.st = "err" THEN {Err(s)}
+         ELSE IF r.st = "err" THEN {ErrAt(s, ln)}
          ELSE {[s EXCEPT !.out = Append(@, r.rec), !.lastOwner = Name(r.rec.owner),
                          !.lastTTL = IF line.ttl # -1 THEN SomeTTL(line.ttl) ELSE @]}
     [] line.k = "origin" ->
          LET c == Complete(line.name, s.origin) IN
-         IF c.st = "amb" THEN {Undef(s)} ELSE IF c.st = "err" THEN {Err(s)} ELSE {[s EXCEPT !.origin = Name(c.n)]}
+         IF c.st = "amb" THEN {Undef(s)} ELSE IF c.st = "err" THEN {ErrAt(s, ln)} ELSE {[s EXCEPT !.origin = Name(c.n)]}
     [] line.k = "ttl" -> {[s EXCEPT !.dirTTL = SomeTTL(line.v)]}
     [] line.k = "include" ->
-         IF ~cfg.incAllowed THEN {Err(s)}                       \* and no Open
-         ELSE IF s.depth >= MaxDepth THEN {Err(s)}
+         IF ~cfg.incAllowed THEN {ErrAt(s, ln)}                       \* and no Open
+         ELSE IF s.depth >= MaxDepth THEN {ErrAt(s, ln)}
          ELSE LET c == IF line.origin.k = "omit" THEN [st |-> "ok", n |-> s.origin.n] ELSE Complete(line.origin, s.origin)
                   no == IF line.origin.k = "omit" THEN s.origin ELSE Name(c.n)
                   fi == FileIndex(cfg, line.file)
                   opened == [s EXCEPT !.opens = Append(@, line.file)]
               IN IF c.st = "amb" THEN {Undef(s)}
-                 ELSE IF c.st = "err" THEN {Err(s)}
-                 ELSE (IF s.depth >= SureDepth THEN {Err(s)} ELSE {})         \* AMBIG: the property fixes no depth
-                      \cup (IF fi = 0 THEN {Err(opened)}                       \* no such file
-                            ELSE UNION { IF sub.err \/ sub.undef
-                                         THEN {[sub EXCEPT !.origin = s.origin, !.depth = s.depth, !.lastOwner = s.lastOwner,
-                                                           !.dirTTL = s.dirTTL, !.lastTTL = s.lastTTL]}
-                                         ELSE CarryOut(s, sub) :
+                 ELSE IF c.st = "err" THEN {ErrAt(s, ln)}
+                 ELSE (IF s.depth >= SureDepth THEN {ErrAt(s, ln)} ELSE {})         \* AMBIG: the property fixes no depth
+                      \cup (IF fi = 0 THEN {ErrAt(opened, ln)}                       \* no such file
+                            ELSE      { IF sub.err \/ sub.undef
+                                         THEN CarryOut(s, sub, FALSE, FALSE)
+                                         ELSE CarryOut(s, sub, s.pol.io, s.pol.it) :
                                          sub \in RunLines({[opened EXCEPT !.origin = no, !.lastOwner = NoName, !.depth = @ + 1]},
                                                           cfg, cfg.files[fi].lines, 1, ln) })
     [] line.k = "generate" ->
-         IF ~GenRangeOK(line) THEN {Err(s)}
-         ELSE IF GenCount(line) > MaxGen THEN {Err(s)}
+         IF ~GenRangeOK(line) THEN {ErrAt(s, ln)}
+         ELSE IF GenCount(line) > MaxGen THEN {ErrAt(s, ln)}
          ELSE LET n == GenCount(line)
                   gl == [j \in 1..n |-> GenLine(line, line.lo + (j - 1) * line.step)]
                   rs == [j \in 1..n |-> IF gl[j].st = "ok" THEN RecordOf(s, cfg, ln, gl[j].line)
@@ -346,20 +360,22 @@ Step(s, cfg, line, ln) ==
               IN IF \E j \in bad : rs[j].st = "amb" THEN {Undef(s)}
                  ELSE IF bad # {} THEN
                    LET jb == CHOOSE j \in bad : \A k \in bad : j <= k IN
-                   {Err([s EXCEPT !.out = @ \o [j \in 1..(jb - 1) |-> rs[j].rec]])}
-                 ELSE CarryOut(s, [s EXCEPT !.out = @ \o [j \in 1..n |-> rs[j].rec],
-                                            !.lastOwner = Name(rs[n].rec.owner),
-                                            !.lastTTL = IF line.ttl # -1 THEN SomeTTL(line.ttl) ELSE @])
-    [] OTHER -> {Err(s)}
+                   {ErrAt([s EXCEPT !.out = @ \o [j \in 1..(jb - 1) |-> rs[j].rec]], ln)}
+                 ELSE {CarryOut(s, [s EXCEPT !.out = @ \o [j \in 1..n |-> rs[j].rec],
+                                             !.lastOwner = Name(rs[n].rec.owner),
+                                             !.lastTTL = IF line.ttl # -1 THEN SomeTTL(line.ttl) ELSE @],
+                                s.pol.go, s.pol.gt)}
+    [] OTHER -> {ErrAt(s, ln)}
 
 \* fl = 0: top level, records are attributed to the index of their line; otherwise to line fl
 RunLines(S, cfg, lines, i, fl) ==
   IF i > Len(lines) THEN S
   ELSE RunLines(UNION { Step(s, cfg, lines[i], IF fl = 0 THEN i ELSE fl) : s \in S }, cfg, lines, i + 1, fl)
 
-Outcome(s) == [undef |-> s.undef, err |-> s.err, recs |-> IF s.undef THEN <<>> ELSE s.out, nopen |-> Len(s.opens)]
+Outcome(s) == [undef |-> s.undef, err |-> s.err, errln |-> s.errln, recs |-> IF s.undef THEN <<>> ELSE s.out, nopen |-> Len(s.opens)]
 \* everything a file may denote under a configuration
-Denotations(cfg, lines) == { Outcome(s) : s \in RunLines({Start(cfg)}, cfg, lines, 1, 0) }
+Denotations(cfg, lines) == { Outcome(s) : s \in RunLines(StartsFor(cfg, lines), cfg, lines, 1, 0) }
+DenotationsAllPolicies(cfg, lines) == { Outcome(s) : s \in RunLines(Starts(cfg), cfg, lines, 1, 0) }
 
 -----------------------------------------------------------------------------
 (* A canonical spelling of every abstract line, and two rewritings of a file   *)
@@ -451,11 +467,11 @@ RewriteFrom(S, c, lines, i, how) ==
   IF i > Len(lines) THEN <<>>
   ELSE <<IF how = "explicit" THEN ExplicitLine(S, c, lines[i]) ELSE MinimalLine(S, c, lines[i])>>
        \o RewriteFrom(UNION { Step(s, c, lines[i], i) : s \in S }, c, lines, i + 1, how)
-Explicit(c, lines) == RewriteFrom({Start(c)}, c, lines, 1, "explicit")
-Minimal(c, lines)  == RewriteFrom({Start(c)}, c, lines, 1, "minimal")
+Explicit(c, lines) == RewriteFrom(StartsFor(c, lines), c, lines, 1, "explicit")
+Minimal(c, lines)  == RewriteFrom(StartsFor(c, lines), c, lines, 1, "minimal")
 
 \* outcomes without the bookkeeping fields (line attribution, TTL source)
-Plain3(o) == [undef |-> o.undef, err |-> o.err,
+Plain3(o) == [undef |-> o.undef, err |-> o.err, errln |-> o.errln,
               recs |-> [i \in 1..Len(o.recs) |-> [owner |-> o.recs[i].owner, ttl |-> o.recs[i].ttl, class |-> o.recs[i].class,
                                                   type |-> o.recs[i].type, rdata |-> o.recs[i].rdata]]]
 Meaning(c, lines) == LET D == Denotations(c, lines) IN
@@ -464,19 +480,19 @@ Meaning(c, lines) == LET D == Denotations(c, lines) IN
 -----------------------------------------------------------------------------
 (* The same thing as a TLA+ state machine: one action per abstract line.       *)
 
-VARIABLES cfg, origin, lastOwner, dirTTL, lastTTL, out, err, undef, opens, depth, nline
-zvars == <<cfg, origin, lastOwner, dirTTL, lastTTL, out, err, undef, opens, depth, nline>>
+VARIABLES cfg, pol, origin, lastOwner, dirTTL, lastTTL, out, err, errln, undef, opens, depth, nline
+zvars == <<cfg, pol, origin, lastOwner, dirTTL, lastTTL, out, err, errln, undef, opens, depth, nline>>
 
 Cur == [origin |-> origin, lastOwner |-> lastOwner, dirTTL |-> dirTTL, lastTTL |-> lastTTL,
-        out |-> out, err |-> err, undef |-> undef, opens |-> opens, depth |-> depth]
+        out |-> out, err |-> err, errln |-> errln, undef |-> undef, opens |-> opens, depth |-> depth, pol |-> pol]
 Becomes(s) == /\ origin' = s.origin /\ lastOwner' = s.lastOwner /\ dirTTL' = s.dirTTL /\ lastTTL' = s.lastTTL
-              /\ out' = s.out /\ err' = s.err /\ undef' = s.undef /\ opens' = s.opens /\ depth' = s.depth
+              /\ out' = s.out /\ err' = s.err /\ errln' = s.errln /\ undef' = s.undef /\ opens' = s.opens /\ depth' = s.depth
 
-ZInit(c) == /\ cfg = c /\ nline = 0
+ZInit(c) == /\ cfg = c /\ nline = 0 /\ pol \in Policies
             /\ origin = c.origin /\ lastOwner = NoName /\ dirTTL = NoTTL /\ lastTTL = NoTTL
-            /\ out = <<>> /\ err = FALSE /\ undef = FALSE /\ opens = <<>> /\ depth = 0
+            /\ out = <<>> /\ err = FALSE /\ errln = 0 /\ undef = FALSE /\ opens = <<>> /\ depth = 0
 
-Do(line) == /\ nline' = nline + 1 /\ UNCHANGED cfg
+Do(line) == /\ nline' = nline + 1 /\ UNCHANGED <<cfg, pol>>
             /\ \E s \in Step(Cur, cfg, line, nline + 1) : Becomes(s)
 
 BlankLine                                    == Do(Blank)
